@@ -948,7 +948,7 @@ PROPS = {
         explanation="theorems stream_invariant, delivered_is_prefix, credit_*, finished_complete, eof_only_when_drained, eof_after_writes, "
                     "restart_preserves, no_call_after_failure, duplex_* about TT/Model/Pipe.lean for every answer sequence; "
                     "table_invariant, read_finished_keeps_response_side, reset_removes_stream, halves_end_independently, "
-                    "other_streams_untouched, unknown_stream_is_noop, removed_stays_removed, finished_stream_leaves_no_entry about TT/Model/H3Streams.lean (the HTTP/3 codec's stream table)",
+                    "other_streams_untouched, unknown_stream_is_noop, removed_stays_removed, finished_stream_leaves_no_entry, request_opens_fresh about TT/Model/H3Streams.lean (the HTTP/3 codec's stream table)",
         trusted=["cancel-safety of Source::read (scripted sources are cancel-safe; real h2/TCP sources are assumed to be)",
                  "tokio try_select / timeout semantics; a pending flush() is never cancelled in the scripts (flush delays are 0): "
                  "cancellation of a pending flush is not modelled",
